@@ -7,13 +7,13 @@ import json, os, re, shutil, sys
 
 sid, sd, caught = sys.argv[1], sys.argv[2], sys.argv[3]
 strengthened = sys.argv[5] if len(sys.argv) > 5 and sys.argv[4] == "--strengthened" else None
-prop = sid.split("-")[0]
+prop = sid[:3]
 out = f"/verif/seeded/{sid}"
 os.makedirs(out, exist_ok=True)
 shutil.copy(f"{sd}/patch.diff", f"{out}/patch.diff")
 demo = open(f"{sd}/demo.py").read()
-demo = re.sub(r"/tmp/seed/C\d\d/_seed", "/tmp", demo)
-demo = re.sub(r"/tmp/seed/C\d\d", "<scratch copy of the repository>", demo)
+demo = re.sub(r"/tmp/seed2?/C\d\d/_seed", "/tmp", demo)
+demo = re.sub(r"/tmp/seed2?/C\d\d", "<scratch copy of the repository>", demo)
 open(f"{out}/demo.py", "w").write(demo)
 if os.path.exists(f"{sd}/notes.md"):
     shutil.copy(f"{sd}/notes.md", f"{out}/notes.md")
